@@ -67,7 +67,7 @@ func isServeNostrSig(fn *ssa.Function) bool {
 
 func runSessState(c *core.Ctx) {
 	P := c.P
-	nsm := P.Root.Func("NewSimpleMiddleware")
+	nsm := P.Func(P.Root, "NewSimpleMiddleware")
 	for _, b := range mwBases(P) {
 		if b.pkg != P.Root {
 			continue // the metrics base is global by design (totals over all sessions): C19 / LOCK-GUARD
